@@ -31,6 +31,10 @@ func c02Register(id string, maxQuick, maxThorough int) {
 							done <- []string{id, "200", "50", "5", "1", ";", "V", "1", "1", ";", "GENPANIC", strings.ReplaceAll(fmt.Sprint(rec), " ", "_")}
 						}
 					}()
+					if id == "C02" && r.Intn(10) == 0 { // store-level glue cases (harness/abfth/store.go)
+						done <- abfth.GenStore(r, id)
+						return
+					}
 					done <- abfth.Gen(r, abfth.GenOpts{Mix: id, Tier: tier, MaxEv: max})
 				}()
 				select {
@@ -61,6 +65,10 @@ func c02Register(id string, maxQuick, maxThorough int) {
 						done <- []string{"PANIC", strings.ReplaceAll(fmt.Sprint(r), " ", "_")}
 					}
 				}()
+				if abfth.IsStore(in) {
+					done <- abfth.ExecStore(in, vu.Stat)
+					return
+				}
 				done <- abfth.Exec(sc, vu.Stat)
 			}()
 			select {
